@@ -38,6 +38,9 @@ class SpecEval(object):
         g = self.ex.lookup_global(self.st, name)
         if g is not None:
             return g
+        f = self.ex.lookup_funcname(name)
+        if f is not None:
+            return FuncV(f)
         raise SpecError('%s: unknown identifier %r' % (self.what, name))
 
     def term(self, e):
@@ -122,6 +125,10 @@ class SpecEval(object):
             raise SpecError('%s: & of index into %r' % (self.what, b))
         if e[0] == 'sel':
             b = self.ev(e[1])
+            if isinstance(b, SnapV) and b.addr is not None:
+                if hasattr(b.f, 'used'):
+                    b.f.used.add('&')
+                b = b.addr
             if isinstance(b, PtrV) and ex.kind(b.elem) == 'struct':
                 fs = [f for f in ex.struct_fields(b.elem) if f['name'] == e[2]]
                 base = b.addr if b.addr is not None else ('obj', b.elem, b.term)
@@ -144,6 +151,9 @@ class SpecEval(object):
             c = self.ex.lookup_const(e[1][1] + '.' + name)
             if c is not None:
                 return c
+            f = self.ex.lookup_funcname(e[1][1] + '.' + name)
+            if f is not None:
+                return FuncV(f)
         b = self.ev(e[1])
         if isinstance(b, PtrV) and self.ex.kind(b.elem) == 'struct':
             # load only the selected field
@@ -302,8 +312,8 @@ class SpecEval(object):
         return self.deep_eq(x, y)
 
     def quant(self, which, args):
-        if len(args) != 4 or args[0][0] != 'id':
-            raise SpecError('%s(k, lo, hi, body) expected' % which)
+        if len(args) not in (4, 5) or args[0][0] != 'id':
+            raise SpecError('%s(k, lo, hi, body [, trigger]) expected' % which)
         name = args[0][1]
         lo, hi = self.term(args[1]), self.term(args[2])
         if lo.is_int() and hi.is_int() and hi.val - lo.val <= 32 and self.ex.expand_small_quants:
@@ -342,19 +352,25 @@ class SpecEval(object):
         k = const('%s?%d' % (name, n), INT)
         saved = self.bound.get(name)
         self.bound[name] = k
+        prefer = None
         try:
             body = self.boolean(args[3])
+            if len(args) == 5:
+                # explicit trigger: an element read such as (*pos)[k]; the quantifier is phrased over its absolute index
+                prefer = self.term(args[4])
         finally:
             if saved is None:
                 del self.bound[name]
             else:
                 self.bound[name] = saved
+        if prefer is not None:
+            return self.finish_quant(which, name, n, k, lo, hi, body, prefer)
         if which == 'forall' and body.op == 'and':
             # forall distributes over conjunction: one quantifier per conjunct, each re-indexed for its own array
             return and_(*[self.finish_quant(which, name, '%d_%d' % (n, ci), k, lo, hi, cj) for ci, cj in enumerate(body.args)])
         return self.finish_quant(which, name, n, k, lo, hi, body)
 
-    def finish_quant(self, which, name, n, k, lo, hi, body):
+    def finish_quant(self, which, name, n, k, lo, hi, body, prefer=None):
         # phrase array facts over absolute indices: if the body reads A[k + rest], re-index by j = k + rest
         cnt = {}
         for x in subterms(body):
@@ -364,6 +380,18 @@ class SpecEval(object):
                     if r is not None:
                         cnt[(cf, r)] = cnt.get((cf, r), 0) + (3 if x.op == 'app' else 1)
         pats = []
+        if prefer is not None:
+            if not (prefer.op == 'select' or (prefer.op == 'app' and prefer.val == 'elem')):
+                raise SpecError('%s: the trigger of a quantifier must be an element read' % self.what)
+            pr_ = None
+            for cf in (1, -1):
+                r = lin_split(prefer.args[1], k, cf)
+                if r is not None:
+                    pr_ = (cf, r)
+                    break
+            if pr_ is None:
+                raise SpecError('%s: trigger index is not k + c or c - k' % self.what)
+            cnt = {pr_: 1}
         if cnt:
             cf, rest = max(cnt, key=lambda cr: (cnt[cr], cr[0], -len(smt(cr[1]))))
             if cf == 1 and not (rest.is_int() and rest.val == 0):
@@ -470,6 +498,16 @@ class SpecEval(object):
                 kv = self.ev(args[1])
                 k = ex.map_key_term(self.st, ex.U(m.tid), kv) if isinstance(kv, StrV) else self.term(args[1])
                 return ex.map_read(self.st, m, k, name == 'maphas')
+            if name == 'fvcall':
+                # fvcall(f, i, args...): i-th scalar result of the pure function value f applied to args
+                fv = self.ev(args[0])
+                idx = args[1][1]
+                avs = [self.ev(a) for a in args[2:]]
+                flat = ex.fv_flat(self.st, fv, avs, None)
+                nm_ = 'fv.pure.%d/%d' % (idx, len(flat))
+                srt = BOOL if False else INT
+                ex.ctx.declare_fun(nm_, [t_.sort for t_ in flat], srt)
+                return app(nm_, flat, srt)
             if name == 'samestr':
                 a, b = self.ev(args[0]), self.ev(args[1])
                 return and_(eq(a.arr, b.arr), eq(a.off, b.off), eq(a.len, b.len))
@@ -480,6 +518,15 @@ class SpecEval(object):
             sf = ex.specs.specfuncs.get(name)
             if sf is not None:
                 return ex.call_specfunc(sf, [self.ev(a) for a in args], self)
+            m_s = re.match(r'^(\w+)_s(\d)$', name)
+            if m_s:
+                # slice result k of a pure Go function, e.g. transformInput_s0(p, item)
+                full = ex.find_func(m_s.group(1))
+                if full is not None:
+                    sp = ex.find_spec(full)
+                    if sp is not None and 'pure' in sp.opts:
+                        rt = ex.prog.funcs[full]['results'][int(m_s.group(2))]['type']
+                        return ex.pure_slice(self.st, full, [self.ev(a) for a in args], int(m_s.group(2)), ex.U(rt)['elem'])
             m_ = re.match(r'^(\w+)_r(\d)$', name)
             if m_:
                 # result k of a pure Go function, e.g. asciiFuzzyIndex_r0(input, pattern, cs)
